@@ -130,8 +130,14 @@ void parsec_atomic_rwlock_rdlock(parsec_atomic_rwlock_t *L)
     w = parsec_atomic_fetch_add_int32(&L->rin, RINC) & WBITS;
     if( w != 0 ) {
         while( w == (L->rin & WBITS) )
+#if defined(PARSEC_VERIF)
+    {   PARSEC_VERIF_YIELD(PARSEC_VERIF_K_SPIN, &L->rin);
+#endif
             if( count++ > 1000 )
               nanosleep( &ts, NULL );
+#if defined(PARSEC_VERIF)
+    }
+#endif
     }
     parsec_atomic_rmb(); // acquire
 }
@@ -149,14 +155,26 @@ void parsec_atomic_rwlock_wrlock(parsec_atomic_rwlock_t *L)
     struct timespec ts = { .tv_sec = 0, .tv_nsec = 100 };
     ticket = parsec_atomic_fetch_inc_int32(&L->win);
     while( L->wout != ticket )
+#if defined(PARSEC_VERIF)
+    {   PARSEC_VERIF_YIELD(PARSEC_VERIF_K_SPIN, &L->wout);
+#endif
         if( count++ > 1000 )
             nanosleep( &ts, NULL );
+#if defined(PARSEC_VERIF)
+    }
+#endif
     w = PRES | (ticket & PHID);
     ticket = parsec_atomic_fetch_add_int32(&L->rin, w);
     count = 0;
     while( L->rout != ticket )
+#if defined(PARSEC_VERIF)
+    {   PARSEC_VERIF_YIELD(PARSEC_VERIF_K_SPIN, &L->rout);
+#endif
         if( count++ > 1000 )
             nanosleep( &ts, NULL );
+#if defined(PARSEC_VERIF)
+    }
+#endif
     parsec_atomic_rmb(); // acquire
 }
 
